@@ -113,6 +113,10 @@ func (s *BlockchainRpcTxWatcher) StartWatchingTxs() error {
 					return err
 				}
 			default:
+				if d := verifPollSleep(); d > 0 {
+					time.Sleep(d)
+					continue
+				}
 				time.Sleep(100 * time.Millisecond)
 			}
 		}
@@ -124,6 +128,7 @@ func (s *BlockchainRpcTxWatcher) StartWatchingTxs() error {
 func (s *BlockchainRpcTxWatcher) StartBlockWatcher() error {
 	ticker := time.NewTicker(500 * time.Millisecond)
 	defer ticker.Stop()
+	ticker.Reset(verifTick(500 * time.Millisecond))
 
 	var lastHeight uint64
 	var lastHash string
